@@ -601,6 +601,7 @@ theorem step_inv (hts : TableSound) (cfg : Cfg) (s0 : St) (hm : cfg.mode = .curr
   | spawn => exact hinv.congr rfl rfl rfl rfl
   | setFile => exact hinv.congr rfl rfl rfl rfl
   | tick => exact hinv.congr rfl rfl rfl rfl
+  | fsFault b => exact hinv.congr rfl rfl rfl rfl
   | cancelCaller id =>
     simp only [step]
     split
@@ -715,6 +716,7 @@ theorem step_cuts_of_not_cancel (cfg : Cfg) (x : XState) (op : XOp) (h : op.isCa
   | spawn => rfl
   | setFile => rfl
   | tick => rfl
+  | fsFault b => rfl
   | cancelCaller id => simp [XOp.isCancel] at h
   | reload => rfl
 
